@@ -161,6 +161,38 @@ func init() {
 		// baseapp.ValidateVoteExtensions (CometBFT signature and voting-power validation of the extended commit):
 		// environment; assumed to accept (the harness states "the commit is valid")
 		m["github.com/cosmos/cosmos-sdk/baseapp.ValidateVoteExtensions"] = func(ex *Exec, fr *frame, cc *ssa.CallCommon, a []Value) Value {
+			// signatures are assumed valid and the commit consistent with the last commit; the voting-power rule is
+			// modelled: commit votes must carry at least 2/3 + 1 of the total power
+			st, ok := cc.Args[4].Type().Underlying().(*types.Struct)
+			ec, ok2 := a[4].(VStruct)
+			if !ok || !ok2 {
+				return nilErr()
+			}
+			fidx := func(s *types.Struct, name string) int {
+				for i := 0; i < s.NumFields(); i++ {
+					if s.Field(i).Name() == name {
+						return i
+					}
+				}
+				panic(unsupported{"field " + name})
+			}
+			votesI := fidx(st, "Votes")
+			vt := st.Field(votesI).Type().Underlying().(*types.Slice).Elem().Underlying().(*types.Struct)
+			valI, flagI := fidx(vt, "Validator"), fidx(vt, "BlockIdFlag")
+			valT := vt.Field(valI).Type().Underlying().(*types.Struct)
+			powI := fidx(valT, "Power")
+			total, sum := IntC(0), IntC(0)
+			votes, _ := ec.F[votesI].(VSlice)
+			for _, ve := range sliceElems(votes) {
+				v := ve.(VStruct)
+				p := v.F[valI].(VStruct).F[powI].(VInt).T
+				total = Add(total, p)
+				sum = Add(sum, Ite(Eq(v.F[flagI].(VInt).T, IntC(2)), p, IntC(0))) // BlockIDFlagCommit = 2
+			}
+			need := Add(ex.truncDivX(Mul(total, IntC(2)), IntC(3)), IntC(1))
+			if ex.decide(Or(Le(total, IntC(0)), Lt(sum, need))) {
+				return ex.mkErr("insufficient cumulative voting power received to verify vote extensions", nil)
+			}
 			return nilErr()
 		}
 		m["github.com/ethereum/go-ethereum/crypto.PubkeyToAddress"] = func(ex *Exec, fr *frame, cc *ssa.CallCommon, a []Value) Value {
